@@ -29,9 +29,9 @@ structure WF (rm : RangeMap) : Prop where
   sub2 : ∀ e ∈ rm.outE.flatten, e ∈ rm.inE.flatten
 
 theorem wf_of_wfB (rm : RangeMap) (h : wfB rm = true) : WF rm := by
-  simp only [wfB, Bool.and_eq_true, decide_eq_true_eq] at h
+  simp only [wfB, Bool.and_eq_true] at h
   obtain ⟨⟨⟨⟨⟨⟨h1, h2⟩, h3⟩, h4⟩, h5⟩, h6⟩, h7⟩ := h
-  exact ⟨h1, sideOK_of _ _ h2 h4, sideOK_of _ _ h3 h5, subsetB_spec _ _ h6, subsetB_spec _ _ h7⟩
+  exact ⟨Nat.eq_of_beq_eq_true h1, sideOK_of _ _ h2 h4, sideOK_of _ _ h3 h5, subsetB_spec _ _ h6, subsetB_spec _ _ h7⟩
 
 /-! ### Units -/
 
@@ -304,14 +304,15 @@ theorem wf_table (name : String) (rm : RangeMap) (h : (name, rm) ∈ Generated.C
 
 /-- The entries whose UTF-8 box is larger than their charset box (the only places where
 `encode_overflow_unit` can occur): UTF-8 encoded surrogates in utf16/utf32 and code points beyond
-U+10FFFF in utf32. Any other entry of any table is tight. -/
+U+10FFFF in utf32 (positions follow `tables.map (·.1)`, pinned in `facts_match`: the 10th table
+is utf16, the 11th utf32). Any other entry of any table is tight. -/
 theorem loose_entries :
-    Generated.C30.tables.filterMap (fun p =>
-      if (looseEntries p.2).isEmpty then none
-      else some (p.1, (looseEntries p.2).map fun e => (e.inR, e.outR))) =
-    [("utf16", [([(16, 215), (0, 255)], [(225, 237), (128, 191), (128, 191)])]),
-     ("utf32", [([(0, 0), (0, 0), (16, 215), (0, 255)], [(225, 237), (128, 191), (128, 191)]),
-                ([(0, 0), (4, 16), (0, 255), (0, 255)], [(241, 244), (128, 191), (128, 191), (128, 191)])])] := by
+    (Generated.C30.tables.map fun p => (looseEntries p.2).map fun e => (e.inR, e.outR)) =
+    [[], [], [], [], [], [], [], [], [],
+     [([(16, 215), (0, 255)], [(225, 237), (128, 191), (128, 191)])],
+     [([(0, 0), (0, 0), (16, 215), (0, 255)], [(225, 237), (128, 191), (128, 191)]),
+      ([(0, 0), (4, 16), (0, 255), (0, 255)], [(241, 244), (128, 191), (128, 191), (128, 191)])],
+     []] := by
   decide +kernel
 
 /-- Shape of the loops and the list of character sets with an encoder, as read from the source
@@ -327,7 +328,8 @@ theorem facts_match :
        ("latin7", "rangemap"), ("swe7", "rangemap"), ("utf16", "rangemap"), ("utf32", "rangemap"),
        ("utf8mb3", "rangemap"), ("utf8mb4", "native")] ∧
     Generated.C30.tables.map (·.1) =
-      ((Generated.C30.charsets.filter (·.2 == "rangemap")).map (·.1)) := by
+      ["armscii8", "ascii", "cp1256", "cp1257", "dec8", "geostd8", "latin1", "latin7", "swe7",
+       "utf16", "utf32", "utf8mb3"] := by
   decide
 
 /-! ### Findings on the unchanged tree (witnesses on the regenerated tables) -/
@@ -362,6 +364,50 @@ example : encode Generated.C30.utf32 [0xF4, 0x90, 0x80, 0x80] [] = .ok [1, 4, 0,
 theorem finding_replace_tail_collapse :
     ∃ rm s, WF rm ∧ replace rm s = .ok [63] ∧ replaceSpec rm s = .ok [63, 98] :=
   ⟨Generated.C30.latin1, [0xC4, 0x80, 98], wf_of_wfB _ (by decide +kernel), by decide +kernel, by decide +kernel⟩
+
+/-! #### SQL level (composition of the model functions that explains the engine's answers; the
+engine itself is compared, not modelled — see the `sqlconv` / `sqlcol` cases of the harness) -/
+
+/-- `HEX(CONVERT(s USING cs))` as the engine computes it: `ConvertUsing.Eval` returns the bytes
+of `EncodeReplaceUnknown(s)` as a string typed `cs`; `HEX` of a text value calls `Encode` on it. -/
+def sqlHexConvertImpl (rm : RangeMap) (s : List Nat) : Res :=
+  match replace rm s with
+  | .ok r => encode rm r []
+  | x => x
+
+/-- What the statement means: the hex of the converted string. -/
+def sqlHexConvertSpec (rm : RangeMap) (s : List Nat) : Res := replaceSpec rm s
+
+/-- Region `sql_convert_using_not_decoded`: `é` in latin1 panics, `a` in utf16 is encoded twice. -/
+theorem finding_sql_convert_using_not_decoded :
+    (sqlHexConvertImpl Generated.C30.latin1 [0xC3, 0xA9] = .crash ∧
+      sqlHexConvertSpec Generated.C30.latin1 [0xC3, 0xA9] = .ok [0xE9]) ∧
+    (sqlHexConvertImpl Generated.C30.utf16 [97] = .ok [0, 0, 0, 97] ∧
+      sqlHexConvertSpec Generated.C30.utf16 [97] = .ok [0, 97]) := by decide +kernel
+
+/-- Outside the region: when the converted bytes are a fixed point of `Encode` (ASCII text in a
+single-byte character set) the double encoding is invisible. -/
+theorem sqlHexConvert_partial (rm : RangeMap) (s r : List Nat) (h1 : replace rm s = .ok r)
+    (h2 : replaceSpec rm s = .ok r) (h3 : encode rm r [] = .ok r) :
+    sqlHexConvertImpl rm s = sqlHexConvertSpec rm s := by
+  simp [sqlHexConvertImpl, sqlHexConvertSpec, h1, h2, h3]
+
+example : sqlHexConvertImpl Generated.C30.latin1 [97, 98] = sqlHexConvertSpec Generated.C30.latin1 [97, 98] := by
+  decide +kernel
+
+/-- Region `sql_unrepresentable_stored`: a column value is kept as given; `HEX(c)`/`LENGTH(c)` call
+`Encode` on it. For `Ā` in a latin1 column the Spec says "not representable" (the statement must
+reject or replace it) while the stored value makes `Encode` panic. -/
+theorem finding_sql_unrepresentable_stored :
+    encodeSpec Generated.C30.latin1 [0xC4, 0x80] = .fail ∧
+    encode Generated.C30.latin1 [0xC4, 0x80] [] = .crash := by decide +kernel
+
+/-- Outside the region (the value is representable): `HEX(c)` is the Spec's encoding and the
+round trip through the column holds — `encode_eq_spec_partial` + `roundtrip_encode_decode`. -/
+theorem sqlColumn_partial {rm : RangeMap} (h : WF rm) (s b : List Nat) (hs : encodeSpec rm s = .ok b)
+    (h1 : ¬ EncodeTailRegion rm s) (h2 : ¬ OverflowRegion rm s) :
+    encode rm s [] = .ok b ∧ decode rm b = .ok s :=
+  ⟨by rw [encode_eq_spec_partial h s h1 h2, hs], roundtrip_encode_decode h s b hs⟩
 
 /-- Non-vacuity of the partial theorems: a string with an unrepresentable character far from
 the end is outside the regions' effect (Impl = Spec = report / one `?`). -/
